@@ -173,6 +173,12 @@ pub fn generate(g: &mut Gen, thorough: bool) {
         let set = super::c02::mixed_set(g, 50);
         g.push(format!("S_C18T\t{}\t{}", crate::wire::escape(def), crate::wire::data_of(&set)), "oracle-threads", true);
     }
+    for kind in ["default", "new", "plain", "plain-new"] {
+        g.push(format!("S_C18C\t{kind}"), "oracle-operators-under-macro-names", true);
+    }
+    for def in ["gridshift grids=test.datum", "deformation dt=10 grids=test.deformation", "gridshift grids=5458.gsb,test.datum"] {
+        g.push(format!("S_C18L\t{}", crate::wire::escape(def)), "oracle-loading-while-clearing", true);
+    }
     register_cases(g, if thorough { 3000 } else { 400 });
     redefinition_histories(g);
     // a second data directory (the user's) behind ./geodesy
